@@ -119,6 +119,25 @@ func (p *Path) selectInstr(i *ssa.Select) Val {
 	for k := 1; k < tup.Len(); k++ {
 		vals = append(vals, p.freshVal("selrecv", tup.At(k).Type()))
 	}
+	// a receive from a close-only channel (context Done channels) is chosen only when it is closed; the value
+	// received in the chosen case is recorded (thread-local ghost)
+	pos := 2
+	for k, s := range i.States {
+		if s.Dir != types.RecvOnly {
+			continue
+		}
+		chosen := fmt.Sprintf("(= %s %d)", idx, k)
+		p.assume(fmt.Sprintf("(=> (and %s %s) %s)", chosen, p.chanGet(chans[k].T, "closeOnly", tBool), p.chanGet(chans[k].T, "closed", tBool)))
+		if pos < len(vals) {
+			v := vals[pos]
+			pos++
+			if fx.env.sortOf(v.Ty) == "Iface" {
+				anyT := types.NewInterfaceType(nil, nil)
+				h := fx.env.memHeap(anyT)
+				p.setHeap(h, fmt.Sprintf("(ite %s (store (store %s %s %s) %s %s) %s)", chosen, p.heap(h), p.chanField(chans[k].T, "lastRecvIface"), v.T, p.ghostAddr("lastRecvAny"), v.T, p.heap(h)))
+			}
+		}
+	}
 	return Val{Tuple: vals, Ty: i.Type()}
 }
 
@@ -160,11 +179,23 @@ func (p *Path) recv(i *ssa.UnOp) Val {
 	p.envStep()
 	p.assume(fmt.Sprintf("(not (= %s nil))", ch.T))
 	p.recordRecv(ch.T)
+	p.assume(fmt.Sprintf("(=> %s %s)", p.chanGet(ch.T, "closeOnly", tBool), p.chanGet(ch.T, "closed", tBool)))
+	var rv Val
+	var res Val
 	if i.CommaOk {
 		tup := i.Type().(*types.Tuple)
-		return Val{Tuple: []Val{p.freshVal("recv", tup.At(0).Type()), p.freshVal("recvok", tup.At(1).Type())}, Ty: i.Type()}
+		rv = p.freshVal("recv", tup.At(0).Type())
+		res = Val{Tuple: []Val{rv, p.freshVal("recvok", tup.At(1).Type())}, Ty: i.Type()}
+	} else {
+		rv = p.freshVal("recv", i.Type())
+		res = rv
 	}
-	return p.freshVal("recv", i.Type())
+	if p.fx.env.sortOf(rv.Ty) == "Iface" {
+		anyT := types.NewInterfaceType(nil, nil)
+		p.chanSet(ch.T, "lastRecvIface", anyT, rv.T)
+		p.setGhost("lastRecvAny", anyT, rv.T)
+	}
+	return res
 }
 
 func (p *Path) chanClose(in ssa.Instruction, ch Val) {
